@@ -281,12 +281,47 @@ def cast_spec(chain):
     return spec
 
 
-con = contract("cohdl._compiler.frontend._generate_ir:ConvertInstance.cleanup_bool_cast", PROPS)
+con = contract("cohdl._compiler.frontend._generate_ir:ConvertInstance.cleanup_bool_cast", PROPS + ("C03",))
 for chain in (1, 2, 3):
     for extra in ("none", "first", "other"):
         c = Case(f"chain-{chain}-{extra}", [cast_ctx_shape(chain, extra)], cast_spec(chain))
         c.native = False
         con.cases.append(c)
+
+
+# a cast whose SOURCE is a variable or a signal is a snapshot of that object (`old = bool(var); var @= ...; if old:`):
+# it must stay -- replacing its result by the object itself would read the later value (C03)
+def stateful_source_shape(kind):
+    def make(env):
+        src = SObj(kind, _ref_spec=[], _Wrapped=_boolean.boolean)
+        src.fields["_root"] = src
+        t = bool_temp()
+        stmt = SObj(ir.Boolean, _arg=src, _result=t)
+        return SObj(ir.Context, __stmts__=[stmt], __events__=[("dir", t, R)], __capture__=[], __temps__=[src, t])
+
+    return Built([], make, lambda asg: "None", lambda asg: None)
+
+
+def snapshot_spec(sx, ctx):
+    real = sx.real_args[0]
+
+    def holds(res):
+        if res is not real:
+            return False
+        stmt = real.fields["__stmts__"][0]
+        if "__replaced__" in real.fields and real.fields["__replaced__"][0] is not stmt:
+            return False  # the cast statement is kept
+        return all(after is before for before, after in real.fields["__capture__"])  # and no use is redirected
+
+    return C.Pred(holds, "a snapshot of a variable / signal is neither removed nor redirected")
+
+
+from cohdl._core._type_qualifier import Variable as _Variable, Signal as _Signal  # noqa: E402
+
+for kind in (_Variable, _Signal):
+    c = Case(f"snapshot-of-{kind.__name__}", [stateful_source_shape(kind)], snapshot_spec)
+    c.native = False
+    con.cases.append(c)
 
 
 _DESIGN = '''
